@@ -52,11 +52,13 @@ def run(run, tier, loadcfg):
                        'len() == 0 and returns BufferedFrames over the same ring buffer, whose next() is pop(); is_exhausted = len() == 0 AND signal.is_exhausted(). '
                        'With the ring buffer a FIFO (C06) the stream is prefill ++ source (paper step).')
     run.assumptions = ['dasp_ring_buffer::Bounded is an opaque FIFO here (decided by C06)']
-    for cfg in ['std-debug'] + (['nostd'] if tier == 'thorough' else []):
+    for cfg in ['std-debug'] + (['nostd', 'std-release'] if tier == 'thorough' else []):
         fx_ = loadcfg(cfg, optional=(cfg == 'nostd'))
         if fx_ is None:
             continue
         cx = Ctx(fx_)
+        from rules import C06
+        C06.check_used(run, cx, cfg, [b for b in fx_.bodies.values() if b['crate'] == 'dasp_signal' and 'Buffered' in b['path']], 8)
         si, ri = cx.field_index(KEY, 'signal'), cx.field_index(KEY, 'ring_buffer')
         if si is None or ri is None:
             run.fail('buffered.fields', KEY, cfg, 'Buffered { signal, ring_buffer } not found')
